@@ -16,6 +16,15 @@ use campaign::{Shard, Tier};
 
 fn main() {
     let args: Vec<String> = std::env::args().collect();
+    if args.len() >= 2 && args[1] == "--race-selftest" {
+        // deliberately racy program: proves that the ThreadSanitizer build really reports data races
+        static mut RACY: u64 = 0;
+        std::thread::scope(|s| {
+            for _ in 0..2 { s.spawn(|| for _ in 0..10_000 { unsafe { let p = std::ptr::addr_of_mut!(RACY); p.write_volatile(p.read_volatile() + 1); } }); }
+        });
+        println!("selftest done");
+        return;
+    }
     if args.len() < 2 {
         eprintln!("usage: vh <check> --tier quick|thorough --seed N --shard i/n --out FILE [--resume K] [--budget SECS] [--replay FILE]");
         std::process::exit(2);
@@ -39,6 +48,10 @@ fn main() {
             "--resume" => shard.resume = val.parse().unwrap_or(0),
             "--budget" => shard.budget = Duration::from_secs_f64(val.parse().unwrap_or(20.0)),
             "--replay" => shard.replay = Some(PathBuf::from(val)),
+            // small workloads for the Miri add-ons / only the concurrent part for the TSan add-ons
+            "--small" => { std::env::set_var("VH_SMALL", "1"); i += 1; continue; }
+            "--concurrent-only" => { std::env::set_var("VH_C18_CONCURRENT_ONLY", "1"); i += 1; continue; }
+            "--stress-only" => { std::env::set_var("VH_STRESS_ONLY", "1"); i += 1; continue; }
             _ => { eprintln!("unknown argument {}", args[i]); std::process::exit(2); }
         }
         i += 2;
